@@ -4,7 +4,8 @@
    sources get_amplitudes_true, _channels, _waveform_durations, get_depths are C09's model (PV.C09.Model,
    exact-rational instance: QN = option Q, None = NaN) and are called here exactly where alf.py calls them.
    make_channel_objects is modelled AS REPAIRED on branch fix-c14 (the offset of the next probe is the
-   maximum of this probe's channel map, as in Merger.write_channel_data -- not an increment).
+   maximum of this probe's channel map, as in Merger.write_channel_data -- not an increment), and the
+   nan_idx of _load_data AS REPAIRED on branch fix-c14b (the ids without spikes in BOTH branches).
 
    np.argsort (default kind: not stable) is an oracle: a Section variable; the theorems assume only that
    it returns a sorting permutation.  Where NumPy / an assert of alf.py raises, the model returns None.
@@ -56,12 +57,21 @@ Fixpoint zl_eq (a b : list Z) : bool :=
   | x :: a', y :: b' => (x =? y) && zl_eq a' b'
   | _, _ => false
   end.
-(* _load_data: the cluster waveforms are recomputed (and nan_idx set) iff some spike changed cluster *)
+(* _load_data: the cluster waveforms are recomputed (and nan_idx taken from get_merge_map) iff some spike changed
+   cluster; otherwise (AS REPAIRED on branch fix-c14b; before the repair: nan_idx = [])
+       self.n_clusters = self.n_templates
+       self.nan_idx = np.setdiff1d(np.arange(self.n_clusters, dtype=np.int64), self.spike_clusters)
+   i.e. the ids of range(n_clusters) that no spike carries, increasing *)
 Definition curated (st sc : list Z) : bool := negb (zl_eq sc st).
-Definition model_nan_idx (st sc : list Z) : list Z := if curated st sc then nan_idx st sc else [].
+Definition memZ (z : Z) (l : list Z) : bool := existsb (Z.eqb z) l.
+Definition setdiff_arange (ncl : Z) (sc : list Z) : list Z :=
+  map Z.of_nat (filter (fun c => negb (memZ (Z.of_nat c) sc)) (seq 0 (Z.to_nat ncl))).
+Definition model_nan_idx (ncl : Z) (st sc : list Z) : list Z :=
+  if curated st sc then nan_idx st sc else setdiff_arange ncl sc.
+(* the code before the repair *)
+Definition model_nan_idx_old (st sc : list Z) : list Z := if curated st sc then nan_idx st sc else [].
 
 (* arr[nan_idx] = np.nan *)
-Definition memZ (z : Z) (l : list Z) : bool := existsb (Z.eqb z) l.
 Definition set_at {A} (d : A) (idx : list Z) (l : list A) : list A :=
   map (fun p => if memZ (Z.of_nat (fst p)) idx then d else snd p) (combine (seq 0 (length l)) l).
 Definition set_nan (idx : list Z) (l : list QN) : list QN := set_at (None : QN) idx l.
@@ -134,7 +144,7 @@ Definition wf_alf (x : alf_in) : bool :=
   forallb (fun s => (0 <=? s) && (s <? x_ncl x)) (x_sc x) &&
   Nat.eqb (length (x_sc x)) (length (x_st x)) &&
   (0 <=? x_nclosest x) &&
-  forallb (fun i => (0 <=? i) && (i <? x_ncl x)) (model_nan_idx (x_st x) (x_sc x)).
+  forallb (fun i => (0 <=? i) && (i <? x_ncl x)) (model_nan_idx (x_ncl x) (x_st x) (x_sc x)).
 
 (* templates[t, ...] = templates_v[t, :][:, templates_inds[t, :]] *)
 Definition take_cols {A} (d : A) (inds : list nat) (T : list (list A)) : list (list A) :=
@@ -153,7 +163,7 @@ Definition export_with (tinds cinds : list (list nat)) (x : alf_in) (factor rate
   | Some amp_t, Some amp_c, Some dur, Some dep =>
       (* clusters_channels: peak channels of the STORED (whitened) cluster waveforms *)
       let cpk := peak_channels nc (x_cdata x) in
-      let nan := model_nan_idx (x_st x) (x_sc x) in
+      let nan := model_nan_idx (x_ncl x) (x_st x) (x_sc x) in
       (* clusters_depths = channel_positions[cluster_channels, 1]; clusters_depths[nan_idx] = nan *)
       let cdep := set_nan nan (map (fun c => q_ofZ (posy (x_pos x) c)) cpk) in
       Some (mk_alf_out
